@@ -843,6 +843,10 @@ func (r *srvRun) rawFail(st map[string]any, ev map[string]any) error {
 		copy(hs[4:], "XOTL")
 	case "short":
 		hs = hs[:7]
+	case "lower":
+		copy(hs, "trtphotl") // the identifiers are case-sensitive
+	case "mixed":
+		copy(hs, "TRTPhotl")
 	}
 	login, _ := st["login"].(string)
 	pw := bytesOf(st["pw"])
